@@ -184,6 +184,7 @@ def run(ctx):
     S = [dict(kind=k, shape=sh) for k in ('ctx_switch', 'gen_switch', 'nested_rw', 'meta_mode') for sh in ([5], [4, 2], [0], [0, 3])
          if not (k == 'gen_switch' and sh[0] == 0)]
     S += [dict(kind='rmeta_mode'), dict(kind='rctx_switch')]
+    S += [dict(kind=k, shape=sh) for k in ('exc_exit', 'gen_break') for sh in ([5], [4, 2])]
     S += [dict(kind=k, nonempty=ne, default=df) for k in ('ragged_copy', 'array_copy') for ne in (False, True) for df in (True, False)]
     for case, ob in zip(S, ctx.run_impl(S, 'open_scenarios', timeout=1200)):
         key = dict(case)
